@@ -173,9 +173,21 @@ func transition(cur ConnState, ev fsmEvent) (ConnState, bool) {
 	return cur, false
 }
 
+// closedSentinel is stored in the state word once evClose has been processed (the I2 latch made
+// visible to the lock-free committers). It READS as NotConnected (State()) but matches none of the
+// synchronous commit CASes, so a transport Start that was already past its Stop-seal check when Close
+// landed cannot CAS NotConnected -> NotSelected (CommitConnected) after the supervisor has latched
+// closed — which would leave State() misreporting NotSelected after Close returned.
+const closedSentinel = uint32(0xFF)
+
 // State returns the current logical E37 state via a lock-free atomic read.
 func (s *supervisor) State() ConnState {
-	return ConnState(s.state.Load())
+	v := s.state.Load()
+	if v == closedSentinel {
+		return NotConnectedState
+	}
+
+	return ConnState(v)
 }
 
 // CommitConnected performs the synchronous TCP-up commit (symmetric with CommitSelected / §7.D):
@@ -327,8 +339,10 @@ func (s *supervisor) step(ev fsmEvent) {
 	}
 
 	if ev == evClose {
-		// Latch closed (I2) BEFORE teardown: no event queued behind this evClose may move state again.
+		// Latch closed (I2) BEFORE teardown: no event queued behind this evClose may move state again,
+		// and (closedSentinel) no synchronous commit racing this step may either.
 		s.closed = true
+		s.state.Store(closedSentinel)
 		if e := s.closeEpoch.Load(); e != nil {
 			e.teardown(s.resolveCloseTimeout())
 		}
